@@ -9,7 +9,7 @@ pub struct VerifTrue;
 impl Matcher for VerifTrue { fn matches(&self, _: &WalkEntry, _: &mut MatcherIO) -> bool { true } }
 
 // @harness props=C01 tier=quick cost=30
-// @exec has_side_effects of Printer, DeleteMatcher, PruneMatcher, QuitMatcher, TrueMatcher, FalseMatcher, Ls, Printf, Single/MultiExecMatcher, TypeMatcher-like tests
+// @exec has_side_effects of Printer, DeleteMatcher, PruneMatcher, QuitMatcher, TrueMatcher, FalseMatcher, Printf, Single/MultiExecMatcher, TypeMatcher-like tests
 // @sym which primary (index)
 // @bounds one primary
 /// The "is an action" table behind the implicit -print: -print/-print0/-printf/-ls/-delete/-exec* are actions; -prune, -quit and tests are not.
@@ -30,7 +30,7 @@ fn c01_action_flags() {
         4 => (QuitMatcher.has_side_effects(), false),
         5 => (TrueMatcher.has_side_effects(), false),
         6 => (FalseMatcher.has_side_effects(), false),
-        7 => { let m = Ls::new(None); let r = m.has_side_effects(); std::mem::forget(m); (r, true) }
+        7 => (PruneMatcher::new().has_side_effects(), false),
         8 => { let m = printf::verif_kani::printf_empty(); let r = m.has_side_effects(); std::mem::forget(m); (r, true) }
         9 => { let m = exec::verif_kani::single_exec_empty(); let r = m.has_side_effects(); std::mem::forget(m); (r, true) }
         10 => { let m = exec::verif_kani::multi_exec_empty(); let r = m.has_side_effects(); std::mem::forget(m); (r, true) }
@@ -44,4 +44,72 @@ fn c01_action_flags() {
 #[kani::stub(alloc::fmt::format, fmt_stub)]
 fn c01_action_flags_canary() {
     assert!(!DeleteMatcher::new().has_side_effects()); // must FAIL
+}
+
+// ---------------------------------------------------------------------------------------------
+// C01: the implicit -print wrapper of build_top_level_matcher (expression parser and And-builder abstracted)
+// ---------------------------------------------------------------------------------------------
+use super::logical_matchers::verif_kani::Probe;
+static mut BT_ACTION: bool = false;
+static mut BT_PUSHED: usize = 0;
+static mut BT_PUSH_IS_PRINTER: [bool; 4] = [false; 4];
+static mut BT_BUILT: usize = 0;
+fn tree_script(_args: &[&str], _config: &mut Config, _i: usize, _b: bool) -> Result<(usize, Box<dyn Matcher>), Box<dyn Error>> {
+    unsafe { Ok((0, Box::new(Probe { id: 1, result: true, quits: false, action: BT_ACTION }))) }
+}
+fn nac_rec<M: Matcher>(_b: &mut AndMatcherBuilder, m: M) {
+    unsafe {
+        if BT_PUSHED < 4 { BT_PUSH_IS_PRINTER[BT_PUSHED] = std::any::TypeId::of::<M>() == std::any::TypeId::of::<Printer>(); }
+        BT_PUSHED += 1;
+    }
+    std::mem::forget(m);
+}
+fn build_rec(b: AndMatcherBuilder) -> Box<dyn Matcher> { unsafe { BT_BUILT += 1; } std::mem::forget(b); Box::new(VerifTrue) }
+
+// @harness props=C01 tier=quick cost=30 flags=nomem
+// @exec build_top_level_matcher (the "no action => add -print" decision), Matcher::has_side_effects of the parsed expression
+// @sym whether the parsed expression contains an action
+// @bounds build_matcher_tree replaced by a script returning an arbitrary expression; AndMatcherBuilder::{new_and_condition,build} replaced by recorders (their semantics: c01_and_builder)
+/// -print is conjoined after the whole expression iff the expression contains no action; otherwise the expression is returned as is.
+#[kani::proof]
+#[kani::unwind(4)]
+#[kani::stub(alloc::fmt::format, fmt_stub)]
+#[kani::stub(alloc::raw_vec::handle_error, he_stub)]
+#[kani::stub(std::alloc::handle_alloc_error, hae_stub)]
+#[kani::stub(std::rt::thread_cleanup, noop_stub)]
+#[kani::stub(build_matcher_tree, tree_script)]
+#[kani::stub(AndMatcherBuilder::new_and_condition, nac_rec)]
+#[kani::stub(AndMatcherBuilder::build, build_rec)]
+fn c01_default_print() {
+    unsafe { BT_ACTION = kani::any(); BT_PUSHED = 0; BT_BUILT = 0; }
+    let mut config = Config::default();
+    let m = match build_top_level_matcher(&["x"], &mut config) { Ok(m) => m, Err(e) => { std::mem::forget(e); assert!(false); return; } };
+    unsafe {
+        if BT_ACTION {
+            assert!(BT_PUSHED == 0 && BT_BUILT == 0);
+        } else {
+            // expression first, then -print, combined by "and"
+            assert!(BT_PUSHED == 2 && BT_BUILT == 1);
+            assert!(!BT_PUSH_IS_PRINTER[0] && BT_PUSH_IS_PRINTER[1]);
+        }
+        kani::cover!(BT_ACTION);
+        kani::cover!(!BT_ACTION);
+    }
+    std::mem::forget(m);
+}
+#[kani::proof]
+#[kani::unwind(4)]
+#[kani::stub(alloc::fmt::format, fmt_stub)]
+#[kani::stub(alloc::raw_vec::handle_error, he_stub)]
+#[kani::stub(std::alloc::handle_alloc_error, hae_stub)]
+#[kani::stub(std::rt::thread_cleanup, noop_stub)]
+#[kani::stub(build_matcher_tree, tree_script)]
+#[kani::stub(AndMatcherBuilder::new_and_condition, nac_rec)]
+#[kani::stub(AndMatcherBuilder::build, build_rec)]
+fn c01_default_print_canary() {
+    unsafe { BT_ACTION = kani::any(); BT_PUSHED = 0; BT_BUILT = 0; }
+    let mut config = Config::default();
+    let m = build_top_level_matcher(&["x"], &mut config);
+    unsafe { assert!(BT_PUSHED == 2); } // "always print": must FAIL
+    std::mem::forget(m);
 }
